@@ -381,7 +381,7 @@ func (p *printer) node(n *N) {
 		p.tok("in", "op", " ", "")
 		p.expr(n.X, " ")
 		if n.Y != nil {
-			p.tok("if", "word", " ", "")
+			p.tok("if", "word", " ", "If") // the inline condition is an if node anchored at its keyword
 			p.expr(n.Y, " ")
 		}
 		p.endTag(n)
